@@ -25,7 +25,7 @@ func (in *Interp) noteBound(c *Term) {
 		c = c.args[0]
 	}
 	set := func(v *Term, lo, hi uint64, ok bool) {
-		if !ok || v.op != OpVar {
+		if !ok || v.op == OpConst || v.w == 0 {
 			return
 		}
 		if in.rng == nil {
@@ -49,13 +49,13 @@ func (in *Interp) noteBound(c *Term) {
 	case OpUlt:
 		a, b := c.args[0], c.args[1]
 		switch {
-		case a.op == OpVar && b.op == OpConst:
+		case a.op != OpConst && b.op == OpConst:
 			if !neg { // v < c
 				set(a, 0, b.val-1, b.val > 0)
 			} else { // v >= c
 				set(a, b.val, maskW(a.w), true)
 			}
-		case a.op == OpConst && b.op == OpVar:
+		case a.op == OpConst && b.op != OpConst:
 			if !neg { // c < v
 				set(b, a.val+1, maskW(b.w), a.val < maskW(b.w))
 			} else { // v <= c
@@ -67,7 +67,7 @@ func (in *Interp) noteBound(c *Term) {
 		if a.op == OpConst {
 			a, b = b, a
 		}
-		if neg && a.op == OpVar && b.op == OpConst && in.rng != nil {
+		if neg && a.op != OpConst && a.w != 0 && b.op == OpConst && in.rng != nil {
 			if r, ok := in.rng[a.id]; ok {
 				if b.val == r.lo && r.lo < r.hi {
 					r.lo++
@@ -88,13 +88,16 @@ func (in *Interp) rangeOf(t *Term, depth int) urange {
 	if depth > 40 {
 		return full
 	}
+	if t.op != OpConst {
+		// a bound the path condition states for this very term
+		if r, ok := in.rng[t.id]; ok {
+			return r
+		}
+	}
 	switch t.op {
 	case OpConst:
 		return urange{t.val, t.val}
 	case OpVar:
-		if r, ok := in.rng[t.id]; ok {
-			return r
-		}
 		return full
 	case OpIte:
 		switch in.triState(t.args[0], depth+1) {
@@ -245,4 +248,46 @@ func (in *Interp) triState(c *Term, depth int) int {
 		return -1
 	}
 	return -1
+}
+
+// narrow removes truncate-then-extend pairs whose operand is known (from the
+// intervals) to fit the narrower width: zext(extract[k-1:0](x)) = x when
+// x < 2^k. It only ever replaces a term by an equal one under the path
+// condition.
+func (in *Interp) narrow(t *Term, memo map[int]*Term) *Term {
+	if !t.sym || len(in.rng) == 0 || t.size > 20000 {
+		return t
+	}
+	if r, ok := memo[t.id]; ok {
+		return r
+	}
+	var r *Term
+	if t.op == OpZExt && t.args[0].op == OpExtract && t.args[0].val&0xff == 0 {
+		x := t.args[0].args[0]
+		k := t.args[0].w
+		if x.w == t.w && k < 64 && in.rangeOf(x, 0).hi < uint64(1)<<k {
+			r = in.narrow(x, memo)
+			memo[t.id] = r
+			return r
+		}
+	}
+	if len(t.args) == 0 {
+		r = t
+	} else {
+		args := make([]*Term, len(t.args))
+		changed := false
+		for i, a := range t.args {
+			args[i] = in.narrow(a, memo)
+			if args[i] != a {
+				changed = true
+			}
+		}
+		if changed {
+			r = rebuild(t, args)
+		} else {
+			r = t
+		}
+	}
+	memo[t.id] = r
+	return r
 }
